@@ -147,7 +147,16 @@ class Gen:
         if kind == 2:
             return (cirq.ISWAP ** self._pick(EXPONENTS, "exp")).on(a, b)
         if kind == 3:
-            return cirq.SWAP.on(a, b)
+            # SWAP**odd integer is a pure relabelling (the product-state simulators take a shortcut for
+            # it); other powers entangle, and a global shift makes even the odd powers more than a relabelling
+            form = self.t.weighted([5, 3, 1], "swap-form")
+            if form == 0:
+                return cirq.SWAP.on(a, b)
+            self.features.add("swap-power")
+            if form == 1:
+                return (cirq.SWAP ** self._pick([0.75, 1.25, 3, -1, 0.5, -0.75, 2, 1.5, 0.875, 1.125], "swap-exp")).on(a, b)
+            return cirq.SwapPowGate(exponent=self._pick([1, 3, 0.75], "swap-exp"),
+                                    global_shift=self._pick([0.5, -0.25], "swap-shift")).on(a, b)
         return (cirq.CNOT ** self._pick(EXPONENTS, "exp")).on(a, b)
 
     def _confusion(self, dims: Sequence[int]) -> Tuple[np.ndarray, float]:
